@@ -115,11 +115,22 @@ CATCH = {
  "C12-r6": (["C12"], ["C12|restart-after-reorganisation|tip-differs"], False, "C12: after a clean restart the stored side branch overtakes the main chain, then another clean restart"),
  "C13-r6": (["C13","C12"], ["C13|panic|blockchain.rs:cannot_continue_with_invalid_total_supply","C12|clean-restart|tip-differs"], True, ""),
  "C14-r6": (["C14"], ["C14|pool|invalid-tx-after|own-invalid"], False, "C14: op own-invalid (a refused block under the node's own key; its transactions are handed back to the pool) - which first exposed the unreserved hand-back fixed in 3fb9d58"),
+ "C15-r6": (["C15"], ["C15|not-converged"], True, ""),
  "C16-r6": (["C16"], ["C16|announced-block-never-requested"], False, "C16: op request-only (the consensus processor's request for a missing parent without any announcement)"),
  "C17-r6": (["C17"], ["C17|key-index-names-peer-of-another-key"], False, "C17: invariant on address_to_peers after every delivery"),
  "C18-r6": (["C18"], ["C18|header-differs|body-less-source"], False, "C18: projection of the block after its transactions were pruned from memory"),
  "C19-r6": (["C19"], ["C19|balance-differs-from-unspent-sum|stake"], False, "C19: staking family at the wallet's interface"),
  "C20-r6": (["C20"], ["C20|order|wallet-held-then-peers|network.rs<-network.rs","C20|deadlock|consensus:blockchain+config+mempool+wallet>peers|routing:config+peers>wallet"], True, ""),
+ "C01-r7": (["C01"], ["C01|accepted|type-issuance|block-tip","C01|accepted|type-issuance|block-fork"], False, "C01: histories of depth 0 and 1 (the hostile block is block #2 / a sibling of block #2)"),
+ "C02-r7": (["C02","C03"], ["C02|supply|loss","C02|supply|inflation","C02|panic|blockchain.rs:cannot_continue_with_invalid_total_supply","C03|ledger|both","C03|tip|not-a-delivered-chain-tip"], True, ""),
+ "C03-r7": (["C03"], ["C03|tip|not-a-delivered-chain-tip"], True, "caught by the long-chain family added in round 6 (reorganisation after the window wrapped)"),
+ "C04-r7": (["C04"], ["C04|trace-left|tip"], True, ""),
+ "C05-r7": (["C04"], ["C04|trace-left|tip"], True, "caught by C04's ring family (fourth change to this line of blockring.rs); C05's worlds do not wrap the ring"),
+ "C06-r7": (["C06"], ["C06|header-edit-accepted|resign-with-other-key","C06|header-edit-accepted-under-new-hash|change-timestamp","C06|header-edit-accepted-under-new-hash|change-treasury-field"], False, "C06: a quarter of the runs let the receiving nodes run under the creator's key"),
+ "C07-r7": (["C07","C09"], ["C07|observer-does-not-follow","C07|observer-refused-producer-block|chain","C09|re-encode-differs|block"], True, "C09 catches it through the header fields randomised in round 6"),
+ "C08-r7": (["C08"], ["C08|accepted|invalid-routing-path","C08|accepted|insufficient-work"], False, "C08: the block's golden-ticket transaction pays a fee and carries one of the path shapes; stake-typed fee-paying transactions (which first exposed the unverified staking path fixed in ee569f6)"),
+ "C09-r7": (["C09"], ["C09|decoded-value-differs|transaction|sweep","C09|re-encode-differs|transaction|sweep","C09|re-encode-differs|message|transaction","C09|re-encode-differs|block"], True, ""),
+ "C10-r7": (["C10"], ["C10|panic|decoder|gt|golden_ticket.rs:range_end_index_out_of_range"], True, ""),
  "C20": (["C20"], ["C20|order|wallet-held-then-blockchain|verification_thread.rs<-verification_thread.rs","C20|deadlock|consensus:blockchain+config>wallet|verification:wallet>blockchain"], True, ""),
 }
 extra = {}
